@@ -41,6 +41,8 @@ impl Lmdb {
             .map_size(1048576 * 1024 * 24); // 24 GB
 
         let env = unsafe { builder.open(directory)? };
+        #[cfg(feature = "verif")]
+        crate::verif::point("lmdbnew:after_env_open");
 
         // Open/Create maps
         let mut txn = env.write_txn()?;
@@ -103,8 +105,12 @@ impl Lmdb {
                 .create(&mut txn)?;
             let _ = extra_tables.insert(*extra_table_name, table);
         }
+        #[cfg(feature = "verif")]
+        crate::verif::point("lmdbnew:before_commit");
 
         txn.commit()?;
+        #[cfg(feature = "verif")]
+        crate::verif::point("lmdbnew:after_commit");
 
         let lmdb = Lmdb {
             env,
@@ -144,11 +150,15 @@ impl Lmdb {
 
     /// Get a read transaction
     pub(crate) fn read_txn(&self) -> Result<RoTxn, Error> {
+        #[cfg(feature = "verif")]
+        crate::verif::point("lmdb:read_txn");
         Ok(self.env.read_txn()?)
     }
 
     /// Get a write transaction
     pub(crate) fn write_txn(&self) -> Result<RwTxn, Error> {
+        #[cfg(feature = "verif")]
+        crate::verif::writer_enter();
         Ok(self.env.write_txn()?)
     }
 
